@@ -26,8 +26,8 @@ func TestMain(m *testing.M) {
 	ev = evid.New("C15", "exploration",
 		"for each (analog format 0..2) x (linearisation 0..11) x factor tuple (M, B, K1, K2) a Full Sensor Record is encoded by the reference, decoded by the library, turned into a "+
 			"SensorReader and read over a real session for all 256 raw bytes served by the simulated BMC; tuples: boundary values {-512,-511,-1,0,1,511}^2 x {-8,-7,-1,0,1,7}^2 "+
-			"(complete in the thorough tier, a seed-dependent subset plus pseudo-random tuples in quick). Oracle: exact big.Rat evaluation of (M*x + B*10^K1)*10^K2 with x per the "+
-			"format, forward rounding bound, monotone interval for L widened by 4 ulp, NaN/Inf exactly where L is undefined/singular; all 8 flag combinations and 3/4-byte replies; "+
+			"(complete with all 256 raw bytes in the thorough tier; in quick a pairwise-covering subset plus pseudo-random tuples, all 256 raw bytes for every 10th combination and boundary + sampled bytes otherwise). Oracle: exact big.Rat evaluation of (M*x + B*10^K1)*10^K2 with x per the "+
+			"format, forward rounding bound, monotone interval for L widened by a relative 1e-12, NaN/Inf exactly where L is undefined/singular; all 8 flag combinations and 3/4-byte replies; "+
 			"constructor refusals for non-linear codes >= 0x70 and format 3. Non-trivial = M != 0 and raw != 0; distinct by (format, L, tuple, raw)")
 	ev.Assume("cube root of a negative value: both the real root and NaN are accepted (the specification names no domain)",
 		"reserved linearisation codes 0x0C..0x6F are not asserted")
@@ -83,7 +83,11 @@ func widen(lo, hi float64) (float64, float64) {
 		if math.IsInf(v, 0) || math.IsNaN(v) {
 			return v
 		}
-		return v + dir*(math.Abs(v)*8*0x1p-52+5e-324)
+		// relative slack of 1e-12: the library's linearisers are built from
+		// math.Pow (e.g. x^(1/3) with the exponent rounded to a float64), whose
+		// result differs from the correctly rounded function by a few ulp times
+		// |ln x|; that is floating-point rounding, not a wrong formula
+		return v + dir*(math.Abs(v)*1e-12+5e-324)
 	}
 	return w(lo, -1), w(hi, 1)
 }
@@ -181,16 +185,47 @@ func tuples() []tuple {
 		}
 		return all
 	}
-	// quick: 16 boundary tuples chosen by the seed + 8 pseudo-random tuples
+	// quick: pairwise-covering subset of the boundary product - every (B, K1)
+	// pair and every (M, K2) pair of boundary values occurs, the other two
+	// factors chosen by the seed - plus 8 pseudo-random tuples
 	var out []tuple
 	s := uint64(ev.Seed)*0x9E3779B97F4A7C15 + 1
-	for i := 0; i < 16; i++ {
+	next := func(n int) int {
 		s = s*6364136223846793005 + 1442695040888963407
-		out = append(out, all[(s>>33)%uint64(len(all))])
+		return int((s >> 33) % uint64(n))
+	}
+	for _, b := range mb {
+		for _, k1 := range ks {
+			out = append(out, tuple{mb[next(6)], b, k1, ks[next(6)]})
+		}
+	}
+	for _, m := range mb {
+		for _, k2 := range ks {
+			out = append(out, tuple{m, mb[next(6)], ks[next(6)], k2})
+		}
 	}
 	for i := 0; i < 8; i++ {
+		out = append(out, tuple{next(1024) - 512, next(1024) - 512, next(16) - 8, next(16) - 8})
+	}
+	return out
+}
+
+// raws returns the raw bytes read for the n-th (tuple, format, linearisation)
+// combination: all 256 in the thorough tier and for every 10th combination in
+// quick, otherwise the boundary bytes plus a seed-dependent sample.
+func raws(n int) []int {
+	if ev.Thorough() || n%10 == 0 {
+		all := make([]int, 256)
+		for i := range all {
+			all[i] = i
+		}
+		return all
+	}
+	out := []int{0, 1, 2, 0x3f, 0x40, 0x7e, 0x7f, 0x80, 0x81, 0xc0, 0xfe, 0xff}
+	s := uint64(n)*0x9E3779B97F4A7C15 + uint64(ev.Seed)
+	for i := 0; i < 20; i++ {
 		s = s*6364136223846793005 + 1442695040888963407
-		out = append(out, tuple{int((s>>20)%1024) - 512, int((s>>32)%1024) - 512, int((s>>44)%16) - 8, int((s>>50)%16) - 8})
+		out = append(out, int(s>>40)&0xff)
 	}
 	return out
 }
@@ -229,7 +264,7 @@ func TestConversion(t *testing.T) {
 				if err != nil {
 					fail(t, map[string]any{"format": format, "lin": lin}, "no reader for a linear/linearised analog sensor: "+err.Error())
 				}
-				for raw := 0; raw < 256; raw++ {
+				for _, raw := range raws(n) {
 					st2 := byte(raw)
 					rd := ref.SensorReading{Reading: byte(raw), Scanning: true, Events: raw%2 == 0, State1: byte(raw * 3)}
 					if raw%3 == 0 {
